@@ -64,7 +64,7 @@ class Machine:
         self.rule_p = rule_p
         self.rule_x = rule_x
         self.steps = 0
-        self.max_steps = 50000
+        self.max_steps = 20000
         self.let = []
         self.widthchg = []
         self.depth = 0
